@@ -38,6 +38,35 @@ def withShape (s : String) (k : Shape → String) : String :=
   | some sh => k sh
   | none => "bad-shape"
 
+def shapeEq (a b : Shape) : Bool := Shape.cmp a b == .eq
+
+def srcs (ds : List Doc) : Option Shape :=
+  match fromSourcesDoc ds with
+  | .ok s => some s
+  | .error _ => none
+
+/-- C08 evaluated on the model, mirroring the harness' `p_c08` -/
+def pC08 (d e : Doc) : String :=
+  match inferDoc d, inferDoc e with
+  | .ok sd, .ok _ =>
+    if (srcs [d, d]).map (shapeEq sd) != some true then "violated: from_sources([d,d]) != from_str(d)"
+    else if (srcs [d, .null]).map (shapeEq sd.asOptional) != some true
+        || (srcs [.null, d]).map (shapeEq sd.asOptional) != some true then "violated: null absorption"
+    else match srcs [d, e], srcs [e, d] with
+      | some s1, some s2 =>
+        let objOk := match srcs [.obj [("k", d), ("x", .num "1")], .obj [("k", e), ("y", .str "s")]] with
+          | some (.object c false) =>
+            (mapGet "k" c).map (shapeEq s1) == some true
+              && (mapGet "x" c).map (shapeEq (.number true)) == some true
+              && (mapGet "y" c).map (shapeEq (.string true)) == some true && c.length == 3
+          | _ => false
+        if !objOk then "violated: object structure"
+        else if (srcs [.arr [d, d], .arr [e]]).map (shapeEq (.array s1 false)) != some true then
+          "violated: array structure"
+        else "ok " ++ sexp s1 ++ " " ++ sexp s2
+      | _, _ => "violated: from_sources([d,e]) failed"
+  | _, _ => "skip"
+
 def step (line : String) : String :=
   match line.splitOn "\t" with
   | ["subset", a, b] => withShape a fun a => withShape b fun b => showBool (isSubset a b)
@@ -111,6 +140,11 @@ def step (line : String) : String :=
       match docsOfHex hs with
       | none => "not-json"
       | some ds => showBool (ds.any fun d => !conflictFree d)
+  | ["p_c08", hd, he] =>
+      match docOfHex hd, docOfHex he with
+      | some d, some e => pC08 d e
+      | _, _ => "not-json"
+  | ["p_c17", _] => "n/a"
   | ["rfc", h] =>
       match docOfHex h with
       | none => "reject"
